@@ -10,6 +10,9 @@ From XcpModel Require Import Base Backup Walker Meta Ops.
 From XcpProofs Require Import OpsProofs.
 From XcpModel Require Import ConcBlock ConcFault.
 From XcpProofs Require Import ConcFaultProofs.
+From XcpModel Require Import Extracted.
+From XcpProofs Require Import PinnedSource.
+From XcpPins Require Import Pin_parfile_copy Pin_parblock_copy Pin_common_allocate_file Pin_parfile_copy_worker Pin_parblock_dispatch_worker Pin_main_main.
 
 (* a failing step outside the known class is always reported (error exit);
    xattr and ownership failures are the documented tolerated warnings *)
@@ -53,8 +56,29 @@ Proof. exact y_exit_ok_sound. Qed.
    with an injected EIO on fsync: exit 0) *)
 Check fault_in_finalisation_refuted.
 
+(* ---- the glue functions this property's hand-written model mirrors are, token for token, the ones it was
+   validated against (an edit re-opens the obligation; harness/repin.py re-pins after re-validation) ---- *)
+Theorem C04_src_pin_parfile_copy : pin_unchanged name_parfile_copy.
+Proof. exact pin_parfile_copy. Qed.
+Theorem C04_src_pin_parblock_copy : pin_unchanged name_parblock_copy.
+Proof. exact pin_parblock_copy. Qed.
+Theorem C04_src_pin_common_allocate_file : pin_unchanged name_common_allocate_file.
+Proof. exact pin_common_allocate_file. Qed.
+Theorem C04_src_pin_parfile_copy_worker : pin_unchanged name_parfile_copy_worker.
+Proof. exact pin_parfile_copy_worker. Qed.
+Theorem C04_src_pin_parblock_dispatch_worker : pin_unchanged name_parblock_dispatch_worker.
+Proof. exact pin_parblock_dispatch_worker. Qed.
+Theorem C04_src_pin_main_main : pin_unchanged name_main_main.
+Proof. exact pin_main_main. Qed.
+
 Print Assumptions C04_fault_sound.
 Print Assumptions C04_exit_ok_classified.
 Print Assumptions C04_tolerated_fault_continues.
 Print Assumptions C04_parblock_exit0_means_no_failure_and_complete.
 Print Assumptions C04_parfile_exit0_means_no_failure_and_complete.
+Print Assumptions C04_src_pin_parfile_copy.
+Print Assumptions C04_src_pin_parblock_copy.
+Print Assumptions C04_src_pin_common_allocate_file.
+Print Assumptions C04_src_pin_parfile_copy_worker.
+Print Assumptions C04_src_pin_parblock_dispatch_worker.
+Print Assumptions C04_src_pin_main_main.
